@@ -92,7 +92,8 @@ class C17(Check):
                 "Pox.C17.stats_never_raises", "Pox.C17.other_messages_frame", "Pox.C17.legacy_interleave_defect",
                 "Pox.C17.legacy_stale_part_defect", "Pox.C17.legacy_unknown_type_raises",
                 "Pox.C17.views_consistent", "Pox.C17.copy_same_view", "Pox.C17.status_unknown_reason", "Pox.C17.features_restarts",
-                "Pox.C17.handshake_defers_in_order", "Pox.C17.stats_two_requests", "Pox.C17.raw_event_exactly_for_stats"]
+                "Pox.C17.handshake_defers_in_order", "Pox.C17.view_at_connection_up", "Pox.C17.stats_two_requests",
+                "Pox.C17.raw_event_exactly_for_stats"]
     anchors = [("pox/openflow/of_01.py", 68, 111), ("pox/openflow/of_01.py", 176, 190), ("pox/openflow/of_01.py", 245, 254),
                ("pox/openflow/of_01.py", 337, 344), ("pox/openflow/of_01.py", 369, 372), ("pox/openflow/of_01.py", 390, 395),
                ("pox/openflow/of_01.py", 397, 404), ("pox/openflow/of_01.py", 601, 715), ("pox/openflow/of_01.py", 760, 760),
@@ -106,7 +107,9 @@ class C17(Check):
                   "(by number, name, address, keys/iteration, len, membership, values, items) is that of the abstract map 'reported ports with the notifications folded in order', and original_ports "
                   "is the features reply unchanged; readd_deleted, renamed_unreachable; stats_refine / stats_once / stats_no_merge — for any stream of statistics parts of any number of requests "
                   "interleaved in any way, each request's event fires exactly once, at its final part, with exactly its own parts' entries in order (a request is the pair (xid, type): stats_two_requests); stats_never_raises; "
-                  "other_messages_frame; raw_event_exactly_for_stats. Phase 2: views_consistent (len/iter/membership/get/has_key/values/items agree in ANY state), copy_same_view, status_unknown_reason, features_restarts, handshake_defers_in_order. "
+                  "other_messages_frame (true by construction of the model's deliver — the .other branch is the identity, port and stats branches write disjoint fields; that the real handlers of the other message kinds leave both "
+                  "pictures alone is established by the differential run with 9 other message kinds, not by this theorem); raw_event_exactly_for_stats (over runConn: one RawStatsReply per statistics message, in order). "
+                  "view_at_connection_up: at ConnectionUp/FeaturesReceived the view is exactly the features reply, then one replayed status at a time. Phase 2: views_consistent (len/iter/membership/get/has_key/values/items agree in ANY state), copy_same_view, status_unknown_reason, features_restarts, handshake_defers_in_order. "
                   "The models mirror the code WITH the repairs D17 and D18; legacy_*_defect theorems are decide-witnesses that the unrepaired lookups / assembly violate the statements. "
                   "Each run re-checks the models against the real code (bytes through Connection.read, default handler table, real decoders) and evaluates an independent oracle on the real code's observables.")
     level_note = ("Trusted: Lean kernel, standard axioms, the hand-written Model/PortView.lean and Model/StatsAgg.lean (tied to the code only by this differential run), Spec/PortStats.lean, this harness. "
@@ -117,7 +120,11 @@ class C17(Check):
     trusted_base = ["models Model/PortView.lean, Model/StatsAgg.lean hand-written from of_01.py (with fixes D17, D18); tied by this correspondence run",
                     "Spec/PortStats.lean (abstract port map; per-request reply assembly) read against OpenFlow 1.0 §5.3.5, §5.4.3",
                     "a Python set is modelled as a list read only through first-match/filter/membership; iteration order is an oracle input for name/address lookups"]
-    assumptions = ["a features reply lists each port number at most once (identical duplicates are harmless); with two different descriptions under one number the code's answer depends on set order and neither model nor oracle judge it",
+    assumptions = ["'notifications applied in order' is read relative to DISPATCH: port statuses received during the handshake are dispatched (applied + PortStatus raised) after ConnectionUp/FeaturesReceived "
+                   "(design of _finish_connecting, comment at of_01.py:341-343), so a ConnectionUp handler sees the bare features reply (theorem view_at_connection_up); at every event the view equals the notifications dispatched so far",
+                   "'fires exactly once' = one Out per message in the model; the code raises each event on the nexus and then, unless a nexus listener halts it, on the connection with the same arguments: the harness "
+                   "installs no halting listener and requires the two observed sequences to be equal (oracle key stats:nexus-differs)",
+                   "a features reply lists each port number at most once (identical duplicates are harmless); with two different descriptions under one number the code's answer depends on set order and neither model nor oracle judge it",
                    "concurrent statistics requests have distinct (xid, type); a request's parts all carry its xid and type",
                    "only the four list-valued statistics types are sent with REPLY_MORE (others: the code discards them by design; compared with the model, not judged by the oracle)",
                    "entry decoding/encoding is exact for the generated entries (C01); entries that do not re-pack to their own bytes are not generated"]
@@ -213,7 +220,7 @@ class C17(Check):
         if m["t"] == "status":
             return of.ofp_port_status(reason=m["reason"], desc=self._port(m["port"])).pack()
         if m["t"] == "features":
-            return of.ofp_features_reply(datapath_id=0x17, ports=[self._port(p) for p in m["ports"]]).pack()
+            return of.ofp_features_reply(datapath_id=m.get("dpid", 0x17), ports=[self._port(p) for p in m["ports"]]).pack()
         if m["t"] == "stats":
             body = b"".join(bytes.fromhex(h) for h in m["body"])
             return of.ofp_stats_reply(xid=m["xid"], type=m["type"], flags=1 if m["more"] else 0, body=body).pack()
@@ -301,7 +308,7 @@ class C17(Check):
         for r in (3, 4, 255):                                       # reasons the standard does not define
             cases.append(ports_case(feat, [{"t": "status", "reason": r, "port": ren}, {"t": "status", "reason": r, "port": pd(3, "b", HWS[1])},
                                            {"t": "status", "reason": 1, "port": feat[1]}]))
-        cases.append(ports_case(feat, [{"t": "status", "reason": 1, "port": feat[0]}, {"t": "features", "ports": feat},
+        cases.append(ports_case(feat, [{"t": "status", "reason": 1, "port": feat[0]}, {"t": "features", "ports": feat, "dpid": 0x18},
                                        {"t": "status", "reason": 2, "port": ren}, {"t": "features", "ports": []},
                                        {"t": "status", "reason": 0, "port": feat[1]}]))
         # --- D18 witnesses (legacy_interleave_defect, legacy_stale_part_defect, legacy_unknown_type_raises)
@@ -369,7 +376,9 @@ class C17(Check):
         msgs = []
         for _ in range(n):
             x = rng.random()
-            if x < 0.05: msgs.append({"t": "features", "ports": self._rand_features(rng), "snap": True})
+            if x < 0.05:
+                msgs.append({"t": "features", "ports": self._rand_features(rng), "snap": True})
+                if rng.random() < 0.3: msgs[-1]["dpid"] = 0x18          # the switch reports another datapath id
             else: msgs.append(self._rand_status(rng))
         return msgs
 
@@ -425,7 +434,7 @@ class C17(Check):
         return {"features": feat, "pre": pre, "early": early, "msgs": msgs, "q": Q_FULL}
 
     def generate(self, rng, tier):
-        n = 1800 if tier == "quick" else 16000
+        n = 1300 if tier == "quick" else 12000
         for i in range(n):
             yield self._case(rng, "ports" if i % 2 == 0 else ("stats" if i % 10 != 9 else "weird"))
         if tier == "thorough":
@@ -555,6 +564,12 @@ class C17(Check):
             ok = ok and self._feed(con, sock, self._msg_bytes({"t": "features", "ports": case["features"]}))
             for m in case.get("early", []):
                 ok = ok and self._feed(con, sock, self._msg_bytes(m))
+            hs_snaps = {"up": [], "fr": [], "replay": []}
+            hs_done = [False]
+            has_early = bool(case.get("early"))
+            con.addListenerByName("ConnectionUp", lambda ev: hs_snaps["up"].append(self._snap(con, case["q"])))
+            con.addListenerByName("FeaturesReceived", lambda ev: None if hs_done[0] else hs_snaps["fr"].append(self._snap(con, case["q"]) if has_early else None))
+            con.addListenerByName("PortStatus", lambda ev: None if hs_done[0] else hs_snaps["replay"].append(self._snap(con, case["q"])))
             bar, b = None, sock.sent
             while len(b) >= 8:
                 l = struct.unpack("!H", b[2:4])[0]
@@ -562,6 +577,7 @@ class C17(Check):
                 b = b[l:]
             if not ok or bar is None: return {"handshake": "no barrier request / connection closed"}
             self._feed(con, sock, of.ofp_barrier_reply(xid=bar).pack())
+            hs_done[0] = True
             if con.connect_time is None or con.handlers is not of_01._default_handlers.handlers:
                 return {"handshake": "connection did not come up"}
             snaps, outs = [self._snap(con, case["q"])], []
@@ -575,7 +591,8 @@ class C17(Check):
                 outs.append(o)
                 if not alive: break
                 if m.get("snap"): snaps.append(self._snap(con, case["q"]))
-            return {"handshake": "up", "snaps": snaps, "outs": outs, "buf": len(con.buf)}
+            return {"handshake": "up", "snaps": snaps, "outs": outs, "buf": len(con.buf),
+                    "up_snaps": hs_snaps["up"], "fr_snaps": hs_snaps["fr"], "replay_snaps": hs_snaps["replay"]}
         finally:
             of_01.log.exception = real_exc
             self._cur = None
@@ -604,6 +621,7 @@ class C17(Check):
         for m in case.get("early", []):
             hs.append({"t": "status", "reason": m["reason"], "port": pd_canon(m["port"])})
         seen0 = seen(next(snaps))
+        up = obs["up_snaps"][0] if len(obs["up_snaps"]) == 1 else None
         msgs = []
         for m in case["msgs"]:
             if m["t"] == "status": mm = {"t": "status", "reason": m["reason"], "port": pd_canon(m["port"])}
@@ -613,7 +631,10 @@ class C17(Check):
             if m.get("snap"): mm["seen"] = seen(next(snaps))
             msgs.append(mm)
         # copy() is compared when the implementation returns a collection (the unrepaired method returns None: candidate C17-1)
-        return {"q": mq, "hs": hs, "seen0": seen0, "msgs": msgs, "copy": all(sn.get("copy") is not None for sn in obs["snaps"])}
+        req = {"q": mq, "hs": hs, "seen0": seen0, "msgs": msgs, "copy": all(sn.get("copy") is not None for sn in obs["snaps"]),
+               "seen_replay": [seen(sn) for sn in obs["replay_snaps"]]}
+        if up is not None: req["seen_up"] = seen(up)
+        return req
 
     SNAP_KEYS = ["keys", "len", "no", "in_no", "name", "in_name", "hw", "in_hw", "values", "items"]
 
@@ -628,18 +649,21 @@ class C17(Check):
             e = o["events"][0]
             outs.append({"type": STATS_EVENTS[e["cls"]], "stats": [ids.get(h, -1) for h in e["stats"]], "xids": e["xids"]})
         with_copy = all(sn.get("copy") is not None for sn in obs["snaps"])
-        snaps = []
-        for sn in obs["snaps"]:
+        def proj(sn):
             d = {p + k: sn[p + k] for p in ("", "o") for k in self.SNAP_KEYS}
             for k in ("get", "get_dflt", "has_key"): d[k] = sn[k]
             if with_copy: d["copy"] = sn["copy"]
-            snaps.append(d)
+            return d
+        snaps = [proj(sn) for sn in obs["snaps"]]
         raws = [(o["raw"][0] if len(o["raw"]) == 1 else (None if not o["raw"] else {"many": o["raw"]})) for o in obs["outs"]]
-        return {"outs": outs, "raws": raws, "snaps": snaps}
+        return {"outs": outs, "raws": raws, "snaps": snaps,
+                "up_snap": proj(obs["up_snaps"][0]) if len(obs["up_snaps"]) == 1 else {"ConnectionUp raised": len(obs["up_snaps"])},
+                "replay_snaps": [proj(sn) for sn in obs["replay_snaps"]]}
 
     def model_obs(self, case, resp):
         if "error" in resp: return resp
-        return {"outs": resp["outs"], "raws": resp["raws"], "snaps": resp["snaps"]}
+        return {"outs": resp["outs"], "raws": resp["raws"], "snaps": resp["snaps"], "up_snap": resp.get("up_snap"),
+                "replay_snaps": resp.get("replay_snaps")}
 
     # ------------------------------------------------------------------ the property, on the implementation's observables
     def _check_coll(self, s, pre, cur, q, who):
@@ -686,7 +710,6 @@ class C17(Check):
                 orig = {p["no"]: pd_canon(p) for p in m["ports"]}; cur = dict(orig); ok_feat = judged(m["ports"])
             return True
         defined = True
-        for m in case.get("early", []): defined = apply(m) and defined
         snaps = iter(obs["snaps"])
         def check(s):
             if not (defined and ok_feat): return None
@@ -703,6 +726,22 @@ class C17(Check):
                    or c["no"] != [cur.get(k, "IndexError") for k in q["nos"]]:
                     return "ports:copy:wrong: ports.copy() = %s, expected the current map %s" % (c, sorted(cur.values()))
             return None
+        # ---- at ConnectionUp / FeaturesReceived nothing has been dispatched yet: the view is the features reply; the statuses
+        #      received during the handshake are dispatched afterwards, one PortStatus event each (C17 reads "notifications applied
+        #      in order" relative to dispatch: at every event the view holds exactly the notifications dispatched so far)
+        if len(obs["up_snaps"]) != 1 or len(obs["fr_snaps"]) != 1:
+            return "handshake:events:count: ConnectionUp raised %d times, FeaturesReceived %d times on the connection" % (len(obs["up_snaps"]), len(obs["fr_snaps"]))
+        for tag, sn in (("ConnectionUp", obs["up_snaps"][0]), ("FeaturesReceived", obs["fr_snaps"][0])):
+            if sn is None: continue                       # not recorded (no status was received during this handshake)
+            f = check(sn)
+            if f: return f.replace("ports:", "ports-at-up:", 1) + " (at %s)" % tag
+        early = case.get("early", [])
+        if len(obs["replay_snaps"]) != len(early):
+            return "handshake:replay:count: %d port statuses received during the handshake, %d PortStatus events when the connection came up" % (len(early), len(obs["replay_snaps"]))
+        for k, m in enumerate(early):
+            defined = apply(m) and defined
+            f = check(obs["replay_snaps"][k])
+            if f: return f.replace("ports:", "ports-at-replay:", 1) + " (at replayed PortStatus %d)" % k
         f = check(next(snaps))
         if f: return f + " (after handshake)"
         # ---- statistics: per request, the open parts; the event due at each message
